@@ -634,6 +634,12 @@ def _refine_ring(rnd, ring, allow_closed_arc=True):
             # interior point, also one close to an end of a long (> 180 degree) piece
             u = rnd.random()
             frac = 0.5 if u < 0.4 else (rnd.uniform(0.3, 0.7) if u < 0.7 else rnd.uniform(0.06, 0.94))
+            if u >= 0.88:
+                # ... and next to one of its ends (what decides "the long way round" must not be
+                # where the control point sits; from seeded change C14-r2-2)
+                frac = rnd.uniform(0.03, 0.1)
+                if rnd.random() < 0.5:
+                    frac = 1.0 - frac
             tm = cuts[i] + (cuts[i + 1] - cuts[i]) * frac
             out.append(("A", pts[i], _arc_point_exact(cx, cy, r, tm), pts[i + 1]))
     return out
